@@ -566,6 +566,13 @@ class Checker:
                         'pre-filtered obstruction subset: edges from nodes outside the filtered region are then not tested against every '
                         'registered box, so the tree has parent links that collide under planner.obstruction)' % (pname, got, meth)), line=c.lineno)
 
+    def shared_objects(self):
+        from .common_ops import shared_field_objects
+        rep = self.rep
+        rep.rule('R16.10', 'no mutable object is bound to two fields of a planner / node / index object in one method without a copy')
+        n10 = sum(shared_field_objects(rep, 'R16.10', ci_, what='the tree') for ci_ in (self.rrt, self.node, self.tree) if ci_ is not None)
+        rep.floor('R16.10', 'field stores of the planner classes examined', n10, 15)
+
     def index_layout(self):
         """R16.9: the spatial index stores and queries a node at its own position: for each supported dimensionality d the coordinate
         tuple handed to the R-tree is the point box (p[0..d-1], p[0..d-1]) of the node's position, in place() and nearestNeighbors()."""
@@ -667,4 +674,5 @@ def check(model, rep):
     ck.bookkeeping()
     ck.extraction()
     ck.index_layout()
+    ck.shared_objects()
     ck.progress()
